@@ -139,6 +139,16 @@ Theorem C07_add_blocked_monotone : forall ps p t running,
 Proof. exact add_blocked_monotone. Qed.
 Print Assumptions C07_add_blocked_monotone.
 
+(* SetBlocked replaces the whole list: only the new predicate is asked afterwards (production code never calls it) *)
+Theorem C07_set_blocked_only : forall p t running, blocked_by (set_blocked p) t running = p t running.
+Proof. exact set_blocked_only. Qed.
+Print Assumptions C07_set_blocked_only.
+
+(* a snapd restart (fresh TaskRunner) leaves no goroutine after any history; C07_excl_invariant covers what follows *)
+Theorem C07_restart_no_goroutines : forall evs, run (evs ++ [ERestart]) = [].
+Proof. exact restart_no_goroutines. Qed.
+Print Assumptions C07_restart_no_goroutines.
+
 (* r.someBlocked: a candidate that reached the blocked check and has no goroutine after the pass was blocked, and the
    flag is then set, so that the next finishing goroutine schedules another Ensure (no blocked task is forgotten) *)
 Theorem C07_some_blocked_complete : forall t cs tb,
